@@ -31,6 +31,10 @@ type failover interface {
 	// Failover selects a new leader. It returns a Status if selecting a new
 	// leader fails.
 	Failover(context.Context) *status.Status
+
+	// IsWitness indicates if a report made by the given reporter currently
+	// counts towards the quorum.
+	IsWitness(reporter string) bool
 }
 
 // failoverStatus tracks witnesses for a leader failover. Witnesses are
@@ -59,12 +63,21 @@ func (f *failoverStatus) report(ctx context.Context, witness string) *status.Sta
 	f.mu.Lock()
 
 	f.witnesses[witness] = struct{}{}
-	leaderFailed := len(f.witnesses) > f.failover.Quorum()
+	witnesses := 0
+	for reporter := range f.witnesses {
+		if f.failover.IsWitness(reporter) {
+			witnesses++
+		}
+	}
+	leaderFailed := witnesses > f.failover.Quorum()
 
 	if leaderFailed {
 		if f.timer != nil {
 			f.timer.Stop()
 		}
+		// The reports are being acted upon. Forget them so that they are not
+		// counted against the next leader.
+		f.witnesses = make(map[string]struct{})
 		f.mu.Unlock()
 		return f.failover.Failover(ctx)
 	}
@@ -129,6 +142,21 @@ func (p *partitionFailover) Failover(ctx context.Context) *status.Status {
 	return p.onFailover(ctx)
 }
 
+// IsWitness indicates if the reporter is an in-sync follower of the partition.
+// Only those can vouch for the leader being unresponsive.
+func (p *partitionFailover) IsWitness(reporter string) bool {
+	leader, _ := p.partition.GetLeader()
+	if reporter == leader {
+		return false
+	}
+	for _, replica := range p.partition.GetISR() {
+		if replica == reporter {
+			return true
+		}
+	}
+	return false
+}
+
 // groupFailover implements the failover interface for a consumer group
 // coordinator. When a majority of a consumer group's members report the
 // coordinator as failed, a new coordinator is selected.
@@ -168,4 +196,9 @@ func (g *groupFailover) OnExpired() {
 // Failover selects a new coordinator.
 func (g *groupFailover) Failover(ctx context.Context) *status.Status {
 	return g.onFailover(ctx)
+}
+
+// IsWitness indicates if the reporter is a member of the consumer group.
+func (g *groupFailover) IsWitness(reporter string) bool {
+	return g.group.IsMember(reporter)
 }
